@@ -29,6 +29,10 @@ def deep_copy(v, memo=None):
         memo = {}
     if isinstance(v, tuple):
         return tuple(deep_copy(x, memo) for x in v)
+    if isinstance(v, SymList):
+        if id(v) not in memo:
+            memo[id(v)] = v.snapshot()
+        return memo[id(v)]
     if isinstance(v, (SList, SDict, SObj, SSet)):
         if id(v) in memo:
             return memo[id(v)]
@@ -102,7 +106,7 @@ def concretize(v, model, memo=None):
         for i in range(n):
             fields = {}
             for f, (fn, kind) in v.funcs.items():
-                val = ev(fn(z3.IntVal(i)))
+                val = ev(v.field(f, z3.IntVal(i)))
                 if kind == 'str':
                     from .values import _unescape_z3
                     fields[f] = _unescape_z3(val.as_string())
@@ -217,13 +221,17 @@ def call_with_params(I, f, args):
     return I.call_funcref(f, pos, kw)
 
 
-def eval_clause(I, src, env):
-    """truth of a clause: bool / z3 Bool; a python exception inside the clause makes it False"""
+def eval_clause(I, src, env, assumed=False):
+    """truth of a clause: bool / z3 Bool; a python exception inside a clause that is to be PROVED makes it False;
+    inside a clause that is ASSUMED (pre-condition, callee post-condition, loop invariant) it is a defect of the
+    specification and stops the analysis of the path (never a silently false assumption)"""
     I.spec_depth += 1
     try:
         return I.truth(I.eval(parse_expr(src), env))
     except PyRaise as e:
         I.st.notes.setdefault('clause_exceptions', []).append(f"{src[:60]}: {e.exc_type.__name__} (line {e.lineno})")
+        if assumed:
+            raise Unsupported(f"assumed clause raises {e.exc_type.__name__}: {src[:80]}")
         return False
     finally:
         I.spec_depth -= 1
@@ -241,6 +249,9 @@ def frame_equal(I, a, b, seen=None):
         if key in seen:
             return True
         seen.add(key)
+    if isinstance(a, SymList) and isinstance(b, SymList):
+        # same list object, no write since the snapshot (a later write is reported as a change)
+        return (a.origin or a) is (b.origin or b) and a.version == b.version
     if isinstance(a, SObj) and isinstance(b, SObj):
         if set(a.fields) != set(b.fields):
             return False
@@ -286,6 +297,8 @@ def make_run(world, c, combo, use_contracts, spec_builtins):
         args = {}
         for name, spec in combo.items():
             args[name] = spec.make(I, name)
+        fparams = {a.arg for a in ast.walk(f.node.args) if isinstance(a, ast.arg)}
+        config['ghosts'] = {k: v for k, v in args.items() if k not in fparams}     # specification-only parameters
         memo = {}
         old = {k: deep_copy(v, memo) for k, v in args.items()}
         st.notes['inputs'] = old
@@ -293,7 +306,7 @@ def make_run(world, c, combo, use_contracts, spec_builtins):
         env = Env(dict(args), pyglobals=genv)
         config['old_env'] = Env(dict(old), pyglobals=genv)
         for r in c.requires:
-            t = eval_clause(I, r, env)
+            t = eval_clause(I, r, env, assumed=True)
             st.assume(t)
         if st.check() == z3.unsat:
             raise Infeasible()
@@ -414,6 +427,11 @@ def apply_contract_at_call(I, c, f, args, kwargs, node):
     """modular call: the callee is represented by its contract, not its body"""
     st = I.st
     bound = I.bind_args(f, args, kwargs)
+    for gname, gspec in c.params.items():
+        if gname not in bound:
+            # specification-only (ghost) parameter of the callee: the caller's ghost of the same name, else arbitrary
+            gv = I.config.get('ghosts', {}).get(gname)
+            bound[gname] = gv if gv is not None else gspec.alternatives()[0].make(I, st.fresh_name('ghost_' + gname))
     genv = dict(c.spec_globals)
     env = Env(dict(bound), pyglobals=genv)
     saved_old = I.config.get('old_env')
@@ -453,7 +471,7 @@ def apply_contract_at_call(I, c, f, args, kwargs, node):
         for cl in c.ensures:
             # kept out of the feasibility solver (definitional facts about the result; feasibility
             # is over-approximated, every VC still carries them)
-            st.assume(eval_clause(I, cl.expr, env), lazy=not c.eager_ensures)
+            st.assume(eval_clause(I, cl.expr, env, assumed=True), lazy=not c.eager_ensures)
         st.events.append(('call', c.name, dict(bound), res))
         return res
     finally:
@@ -494,9 +512,9 @@ def exec_for_with_invariant(I, node, env, inv, qn, k):
     genv = env.pyglobals
     clause = inv['inv']
 
-    def inv_truth(i_val):
-        e = Env({'__i': i_val}, parent=env, pyglobals=I.config['old_env'].pyglobals)
-        return eval_clause(I, clause, e)
+    def inv_truth(i_val, assumed=False):
+        e = Env(dict(I.config.get('ghosts', {}), __i=i_val), parent=env, pyglobals=I.config['old_env'].pyglobals)
+        return eval_clause(I, clause, e, assumed=assumed)
 
     # 1. entry
     st.add_vc(f"loop{k}.inv_entry", 'invariant', inv_truth(0), {'level': 'sup', 'function': qn, 'line': node.lineno})
@@ -517,13 +535,30 @@ def exec_for_with_invariant(I, node, env, inv, qn, k):
             env.vars[name] = SStr([Sq(st.fresh_str('hv_' + name))])
         else:
             raise Unsupported(f"loop invariant: cannot havoc local '{name}' of kind {kind_of(cur)}")
+    # heap locations the loop may change (declared; the declaration is checked by the frame obligation below)
+    heap_mod = inv.get('modifies', {})
+    for path, spec in heap_mod.items():
+        oname, field = path.split('.', 1)
+        ok, obj = env.lookup(oname)
+        if not ok or not isinstance(obj, SObj):
+            raise Unsupported(f"loop invariant: modified location {path} is not a field of a local object")
+        obj.fields[field] = spec.make(I, st.fresh_name('hv_' + field))
     zi = st.fresh_int('it')
     st.assume(zi >= 0)
     in_loop = st.fresh_bool('in_loop')
     if I.branch(in_loop):
         # an arbitrary iteration
         st.assume(zi < L.n)
-        st.assume(inv_truth(SInt(zi)))
+        st.assume(inv_truth(SInt(zi), assumed=True))
+        # frame of the body: everything reachable from the locals, except what is declared modified
+        visible = {}
+        e = env
+        while e is not None:
+            for nm, val in e.vars.items():
+                visible.setdefault(nm, val)
+            e = e.parent
+        memo = {}
+        before = {nm: deep_copy(val, memo) for nm, val in visible.items()}
         elem = models.symlist_elem(I, L, zi)
         I.assign(node.target, (mk_int(zi + start), elem) if enum else elem, env)
         try:
@@ -534,8 +569,23 @@ def exec_for_with_invariant(I, node, env, inv, qn, k):
             return          # leaves the loop: the code behind it runs from the current state
         st.add_vc(f"loop{k}.inv_preserved", 'invariant', inv_truth(mk_int(zi + 1)),
                   {'level': 'sup', 'function': qn, 'line': node.lineno})
+        for nm, val in visible.items():
+            if nm in modified or nm in tnames:
+                continue
+            fields = [m.split('.', 1)[1] for m in heap_mod if m.startswith(nm + '.')]
+            a, b = before[nm], val
+            if fields and isinstance(a, SObj) and isinstance(b, SObj):
+                same = zand(set(a.fields) - set(fields) == set(b.fields) - set(fields),
+                            *[frame_equal(I, a.fields[f2], b.fields[f2], set()) for f2 in a.fields
+                              if f2 not in fields and f2 in b.fields])
+            else:
+                same = frame_equal(I, a, b)
+            if same is not True:
+                st.add_vc(f"loop{k}.frame.{nm}", 'frame', same, {'level': 'sup', 'function': qn, 'line': node.lineno,
+                                                                  'except': fields})
+        st.add_vc(f"loop{k}.frame", 'frame', True, {'level': 'sup', 'function': qn, 'line': node.lineno})
         raise _PathEnd()
     # loop finished: all iterations done
     st.assume(zi == L.n)
-    st.assume(inv_truth(SInt(zi)))
+    st.assume(inv_truth(SInt(zi), assumed=True))
     I.exec_block(node.orelse, env)
